@@ -1631,7 +1631,12 @@ const MSR_CHOICES_PLAIN: [u32; 9] = [0x10, 0xC000_0103, 0x174, 0x1a0, MSR_LSTAR,
 const MSR_CHOICES: [u32; 16] = [MSR_EFER, MSR_STAR, MSR_LSTAR, MSR_CSTAR, MSR_SFMASK, MSR_FS_BASE, MSR_GS_BASE, MSR_KGS_BASE, MSR_APIC_BASE, MSR_PAT, MSR_U_CET, MSR_S_CET, 0x10, 0xC000_0103, 0x174, 0x1a0];
 
 fn any64(rng: &mut Rng) -> u64 {
-    match rng.below(8) {
+    match rng.below(9) {
+        // just outside the canonical halves: bit 47 set with bits 48..63 clear, and the mirror image
+        8 => {
+            let low = rng.next() & 0x7fff_ffff_ffff;
+            if rng.chance(60) { 0x8000_0000_0000 | low } else { 0xffff_0000_0000_0000 | low }
+        }
         0 => 0,
         1 => !0,
         2 => 1 << rng.below(64),
